@@ -646,6 +646,16 @@ def _propagate_new_locals(f, known):
                 if x.get('k') == 'un' and x.get('op') == '&' and isinstance(x.get('e'), dict) and \
                         x['e'].get('k') == 'ref' and x['e'].get('id') in cands:
                     bad.add(x['e']['id'])
+    # a condition kept in a new local was rewritten into a diamond when the function was loaded:
+    # its single definition is the diamond's condition
+    diamonds = {}
+    for vid, ds in defs.items():
+        if len(ds) == 2 and all(f.blocks[b]['events'][i].get('split_bool') for b, i, _r in ds):
+            heads = [hb for hb in f.blocks.values() if (hb.get('term') or {}).get('split_bool')
+                     and set(hb['succs']) == {ds[0][0], ds[1][0]}]
+            if len(heads) == 1:
+                defs[vid] = [(heads[0]['id'], len(heads[0]['events']) - 1, heads[0]['term']['cond'])]
+                diamonds[vid] = heads[0]['id']
     done = 0
     for vid, ds in defs.items():
         if vid in bad or len(ds) != 1:
@@ -655,44 +665,74 @@ def _propagate_new_locals(f, known):
             continue
         if rhs.get('k') == 'int':
             continue
-        # operands must not change after the definition
-        region = set()
-        st = list(f.blocks[dbid]['succs'])
-        while st:
-            x = st.pop()
-            if x < 0 or x in region:
-                continue
-            region.add(x)
-            st.extend(f.blocks[x]['succs'])
-        later = [ev for ev in f.blocks[dbid]['events'][didx + 1:]]
-        for x in region:
-            later.extend(f.blocks[x]['events'])
+        # operands must not change between the definition and any use (paths that pass the
+        # definition again start afresh)
         op_ids = {x['id'] for x in walk(rhs) if x.get('k') == 'ref' and x.get('kind') in ('local', 'param') and 'id' in x}
         op_fields = {x['field'] for x in walk(rhs) if x.get('k') == 'member'}
         has_mem = any(x.get('k') in ('sub',) or (x.get('k') == 'un' and x.get('op') == '*') for x in walk(rhs))
-        unstable = False
-        for ev in later:
+
+        def writes_operand(ev):
             if ev['ev'] == 'assign':
                 l = ev['e']['l']
                 if l.get('k') == 'ref' and l.get('id') in op_ids:
-                    unstable = True
+                    return True
                 if l.get('k') == 'member' and l.get('field') in op_fields:
-                    unstable = True
+                    return True
                 if has_mem and l.get('k') in ('sub', 'un'):
-                    unstable = True
+                    return True
             elif ev['ev'] == 'incdec':
                 l = ev['e']['e']
                 if l.get('k') == 'ref' and l.get('id') in op_ids:
-                    unstable = True
+                    return True
                 if l.get('k') == 'member' and l.get('field') in op_fields:
-                    unstable = True
-            elif ev['ev'] == 'decl' and ev['var']['id'] in op_ids and (dbid in region):
-                pass
+                    return True
             elif ev['ev'] == 'call':
                 for a in ev['e']['args']:
                     if a.get('k') == 'un' and a.get('op') == '&' and isinstance(a.get('e'), dict) and \
                             a['e'].get('k') == 'ref' and a['e'].get('id') in op_ids:
+                        return True
+            return False
+
+        def uses_var(ev, vid=vid):
+            for top in _event_exprs(ev):
+                if any(x.get('k') == 'ref' and x.get('id') == vid for x in walk(top)):
+                    return True
+            return False
+
+        def term_uses(blk, vid=vid):
+            t = blk.get('term')
+            return bool(t and t.get('cond') is not None and
+                        any(x.get('k') == 'ref' and x.get('id') == vid for x in walk(t['cond'])))
+
+        def forward(start_bid, start_idx):
+            """(events after a point, blocks entered) without re-entering the defining block."""
+            evs = list(f.blocks[start_bid]['events'][start_idx:])
+            tu = term_uses(f.blocks[start_bid])
+            seen = set()
+            st = [x for x in f.blocks[start_bid]['succs'] if x >= 0]
+            while st:
+                x = st.pop()
+                if x in seen or x == dbid:
+                    continue
+                seen.add(x)
+                evs.extend(f.blocks[x]['events'])
+                tu = tu or term_uses(f.blocks[x])
+                st.extend(y for y in f.blocks[x]['succs'] if y >= 0)
+            return evs, tu, seen
+        unstable = False
+        region_evs, _tu, region = forward(dbid, didx + 1)
+        # locate each operand write and look for a use after it
+        for wb in [dbid] + sorted(region):
+            evl = f.blocks[wb]['events']
+            lo = didx + 1 if wb == dbid else 0
+            for wi in range(lo, len(evl)):
+                if writes_operand(evl[wi]):
+                    after, tu, _s = forward(wb, wi + 1)
+                    if tu or any(uses_var(e2) for e2 in after):
                         unstable = True
+                        break
+            if unstable:
+                break
         if unstable:
             continue
 
@@ -709,6 +749,9 @@ def _propagate_new_locals(f, known):
                 if ev['ev'] == 'decl' and ev['var']['id'] == vid:
                     nev.append(ev)
                     continue
+                if ev.get('split_bool') and ev['ev'] == 'assign' and ev['e']['l'].get('id') == vid:
+                    nev.append(ev)
+                    continue
                 nev.append({kk: (_map_expr(v, r) if kk in ('e', 'init') else v) for kk, v in ev.items()})
             b['events'] = nev
             t = b.get('term')
@@ -716,6 +759,12 @@ def _propagate_new_locals(f, known):
                 t = dict(t)
                 t['cond'] = _map_expr(t['cond'], r)
                 b['term'] = t
+        if vid in diamonds:
+            # every use now carries the condition itself: the diamond is dead, take it out of the graph
+            hb = f.blocks[diamonds[vid]]
+            arms = [f.blocks[x] for x in hb['succs']]
+            hb['succs'] = list(arms[0]['succs'])
+            hb.pop('term', None)
         done += 1
     if done:
         f._preds = f._events = f._calls = None
